@@ -108,7 +108,11 @@ m = {
  },
  "engines": [
    {"name": "mux", "path": "/verif/lib/mux.py", "serves_properties": ["C10", "C11"],
-    "kind_free_text": "TLC model checking (tla/Mux), fault placements (tla/Gen_Mux), recording driver with child isolation (harness/muxdrv, hooks in mux.go), TLC trace validation (tla/Trace_Mux)"},
+    "kind_free_text": "TLC model checking (tla/Mux, tla/MuxTable), fault placements (tla/Gen_Mux), connection-table operation sequences (tla/Gen_MuxTable), recording driver with child isolation (harness/muxdrv, hooks in mux.go), TLC trace validation (tla/Trace_Mux, tla/Trace_MuxTable)"},
+   {"name": "builder", "path": "/verif/lib/builder.py", "serves_properties": [],
+    "kind_free_text": "extension X01 (not a listed property; ./check X01): the adjustment/update builder API as a state machine (tla/Builder), call sequences replayed on real values (harness/builddrv), TLC trace validation (tla/Trace_Builder); evidence in evidence/ext/"},
+   {"name": "adaptlife", "path": "/verif/lib/adaptlife.py", "serves_properties": [],
+    "kind_free_text": "extension X02 (not a listed property; ./check X02): Adaptation Start/Stop/restart against registrations in flight (tla/AdaptLife, tla/Gen_AdaptLife), schedules stepped through a real Adaptation (harness/alifedrv), TLC trace validation (tla/Trace_AdaptLife); findings under property=X02 in known_findings.txt"},
    {"name": "convert", "path": "/verif/lib/convert.py", "serves_properties": ["C14"],
     "kind_free_text": "TLC (tla/Convert) + pkg/api functions executed by harness/convdrv + TLC validation (tla/Trace_Convert)"},
    {"name": "launch", "path": "/verif/lib/launch.py", "serves_properties": ["C18"],
